@@ -39,6 +39,7 @@ func TestProp(t *testing.T) {
 	r.RunProbes(probes())
 	resolvablePart.Run(r)
 	enginePart.Run(r)
+	valueCompletionPart.Run(r)
 }
 
 func TestReplay(t *testing.T) { pbt.StdReplay(t, "C02", dispatch()) }
@@ -47,5 +48,6 @@ func dispatch() pbt.Dispatch {
 	return pbt.Dispatch{}.
 		Add(resolvablePart.Name, resolvablePart.Handler()).
 		Add(enginePart.Name, enginePart.Handler()).
+		Add(valueCompletionPart.Name, valueCompletionPart.Handler()).
 		WithProbes(probes())
 }
